@@ -117,8 +117,8 @@ def exec (c : Case) (j now : Nat) : List Op → Nat → St → St × List Tok
 /-- the target entity of a processed event (`none`: not gated by any fault in the plan) -/
 def popEntity (c : Case) : Pop → Option Nat
   | .job _ j _ => some (c.job j).ent
-  | .nsend _ _ => some c.n
-  | .nhop _ _ => some c.n
+  | .nsend _ p => some (c.n + (c.probe p).net)
+  | .nhop _ p => some (c.n + (c.probe p).net)
   | .recv _ p => some (c.probe p).b
   | _ => none
 
@@ -145,10 +145,6 @@ def St.setCap (s : St) (old new : Nat) : St :=
   let s1 : St := { s with avail := s.avail + (new : Int) - (old : Int) }
   if old < new then s1.wake s1.waiters else s1
 
-def isPartK : Kind → Bool
-  | .part .. => true
-  | _ => false
-
 /-- a fault event the engine cannot have delivered: of a cancelled handle; an event of a scheduled
     fault a second time (a `Partition.heal()` call may be repeated); an end before the start -/
 def faultBad (s : St) (fid : Nat) (act : Bool) (k : Kind) : Bool :=
@@ -170,7 +166,7 @@ def faultPop (c : Case) (s : St) (fid : Nat) (act : Bool) : St × List Tok :=
 def stepOpen (c : Case) (s : St) : Pop → St × List Tok
   | .fault _ fid act => faultPop c s fid act
   | .cancel _ fid => ({ s with cancelled := fid :: s.cancelled }, [])
-  | .healall _ => ({ s with ws := s.ws.healAll }, [])
+  | .healall _ k => ({ s with ws := s.ws.healAll k (c.partOn k) }, [])
   | .job t j false =>
     if (s.procs j).st = .idle then
       let r := exec c j t (c.job j).ops 0 s
@@ -185,12 +181,14 @@ def stepOpen (c : Case) (s : St) : Pop → St × List Tok
     if s.emis.contains (j, k) then ({ s with emis := s.emis.erase (j, k) }, [.got]) else (s, [.bogus])
   | .nsend t p =>
     let pr := c.probe p
+    let a := vid pr.net pr.a
+    let b := vid pr.net pr.b
     if s.probes p != .idle then (s, [.bogus])
-    else if s.ws.blocked pr.a pr.b then ({ s with probes := upd s.probes p .over }, [.part])
-    else if s.ws.lossOf (c.baseLoss pr.a pr.b) pr.a pr.b == SC then
+    else if s.ws.blocked a b then ({ s with probes := upd s.probes p .over }, [.part])
+    else if s.ws.lossOf (c.baseLoss a b) a b == SC then
       ({ s with probes := upd s.probes p .over }, [.loss])
     else
-      let lat := s.ws.latOf (c.baseLat pr.a pr.b) pr.a pr.b
+      let lat := s.ws.latOf (c.baseLat a b) a b
       ({ s with probes := upd s.probes p (.flying (t + lat)) }, [.fly lat])
   | .nhop t p =>
     if s.probes p = .flying t then ({ s with probes := upd s.probes p .fwd }, [.fwd])
